@@ -8,7 +8,9 @@ CONSTANTS
   Flatten = "memory"
   Mags8 = {40}
   Mags4 = {20}
+  GridDtypes = {"i8","i4","i2","f4","f8"}
   Export = FALSE
 INVARIANT PlaneHandedLogical
 CONSTRAINT EmitStores
+CONSTRAINT EmitGridTypes
 CHECK_DEADLOCK FALSE
